@@ -24,7 +24,7 @@ type UnitRun struct {
 }
 
 func (c *Ctx) exploreUnit(ev *Evidence, harness string, cfg sym.Config) (*UnitRun, error) {
-	cfg.NoFeasCheck = true
+	cfg.NoFeasCheck = !cfg.ForceFeas
 	in, err := c.NewInterp(cfg)
 	if err != nil {
 		return nil, err
@@ -167,7 +167,37 @@ func solveOb(in *sym.Interp, ob *sym.Obligation, extra []*smt.Term, timeout, gra
 				keep = append(keep, p)
 			}
 		}
-		if len(keep) > 0 && len(keep) < len(parts) {
+		// first a milder relaxation: drop only what mentions the result variables of
+		// FindString / FindStringIndex models, then project the remaining
+		// decompositions to regular constraints
+		{
+			var keep2 []*smt.Term
+			for _, p := range parts {
+				drop := false
+				smt.Walk(p, func(x *smt.Term) {
+					if x.Op == "var" && (strings.HasPrefix(x.Name, "find!") || strings.HasPrefix(x.Name, "fsi.")) {
+						drop = true
+					}
+					if x.Op == "str.replace_all" {
+						drop = true
+					}
+				})
+				if !drop {
+					keep2 = append(keep2, p)
+				}
+			}
+			if len(keep2) > 0 && len(keep2) < len(parts) {
+				rel := smt.And(sym.ProjectDecomps(keep2)...)
+				rq := &smt.Query{Name: name + "-relaxed-find", Asserts: append([]*smt.Term{rel}, sym.SideConditions([]*smt.Term{rel})...), Timeout: timeout, Both: true, Grace: grace}
+				var rr smt.Result
+				in.WithWorker(func(w *smt.Worker) { rr = w.Check(rq) })
+				if rr.Status == smt.Unsat {
+					rr.Note = "unsat of a relaxed formula (conjuncts over FindString results dropped); " + rr.Note
+					ur.Res = rr
+				}
+			}
+		}
+		if ur.Res.Status == smt.Unknown && len(keep) > 0 && len(keep) < len(parts) {
 			rel := smt.And(keep...)
 			rq := &smt.Query{Name: name + "-relaxed", Asserts: append([]*smt.Term{rel}, sym.SideConditions([]*smt.Term{rel})...), Timeout: timeout, Both: true, Grace: grace}
 			var rr smt.Result
@@ -455,7 +485,7 @@ func (c *Ctx) runUnitObligations(ev *Evidence, ur *UnitRun, label string, timeou
 		case smt.Unknown:
 			nUnknown++
 			if nUnknown <= 5 {
-				ev.Inconclusive(fmt.Sprintf("%s obligation %s on path %d undecided: %s", label, r.Ob.ID, r.Ob.PathID, r.Res.Note))
+				ev.Inconclusive(fmt.Sprintf("%s obligation %s on path %d undecided: %s (choices %v)", label, r.Ob.ID, r.Ob.PathID, r.Res.Note, r.Ob.Ghost["trace"]))
 			}
 			return false
 		case smt.Unsat:
